@@ -124,27 +124,28 @@ Proof. split; reflexivity. Qed.
 
 Section Base.
   Variable V : Type.
-  Variable perfile : path -> option content -> list V.
-  Variable rep_blocks : list fv -> list fv -> list V.
-  Variable rep_consts rep_st : list fv -> list V.
+  Variable perfile perfile_fp : path -> option content -> list V.
+  Variable rep_blocks : option content -> list fv -> list fv -> list V.
+  Variable rep_consts : option content -> list fv -> list V.
+  Variable rep_st : list fv -> list V.
   Variable hard_excl : path -> bool.
   Variable ignored : option content -> path -> bool.
-  Variable ign_path : path.
+  Variable ign_path cfg_path : path.
   Variable in_dir : nat -> path -> bool.
 
-  Notation lint_file1 := (lint_file1 V perfile hard_excl ignored).
-  Notation lint_each := (lint_each V perfile hard_excl ignored).
+  Notation lint_file1 := (lint_file1 V perfile perfile_fp hard_excl ignored).
+  Notation lint_each := (lint_each V perfile perfile_fp hard_excl ignored).
   Notation finalize := (finalize V rep_blocks rep_consts rep_st).
-  Notation run_entry := (run_entry V perfile rep_blocks rep_consts rep_st hard_excl ignored).
-  Notation run_single := (run_single V perfile rep_blocks rep_consts rep_st hard_excl ignored).
-  Notation step := (step V perfile rep_blocks rep_consts rep_st hard_excl ignored ign_path in_dir).
-  Notation run := (run V perfile rep_blocks rep_consts rep_st hard_excl ignored ign_path in_dir).
-  Notation mk_init := (mk_init ign_path).
+  Notation run_entry := (run_entry V perfile perfile_fp rep_blocks rep_consts rep_st hard_excl ignored).
+  Notation run_single := (run_single V perfile perfile_fp rep_blocks rep_consts rep_st hard_excl ignored).
+  Notation step := (step V perfile perfile_fp rep_blocks rep_consts rep_st hard_excl ignored ign_path cfg_path in_dir).
+  Notation run := (run V perfile perfile_fp rep_blocks rep_consts rep_st hard_excl ignored ign_path cfg_path in_dir).
+  Notation mk_init := (mk_init ign_path cfg_path).
 
   (* the ignore memo table only ever holds correct answers for the patterns the parser loaded *)
   Definition coherent (st : ostate) : Prop := forall p b, passoc p (icache st) = Some b -> b = ignored (ppats st) p.
 
-  Lemma coherent_init pp : coherent (init_st pp). Proof. intros p b H. discriminate H. Qed.
+  Lemma coherent_init pp oc : coherent (init_st pp oc). Proof. intros p b H. discriminate H. Qed.
 
   Lemma cached_ignored_ok pp ic p : (forall p b, passoc p ic = Some b -> b = ignored pp p) ->
     fst (cached_ignored ignored pp ic p) = ignored pp p
@@ -162,16 +163,40 @@ Section Base.
     negb (smem "_is_hardcoded_excluded" lint_file_guards && hard_excl p)
     && negb (smem "is_ignored" lint_file_guards && ignored pp p).
 
-  Definition evid1 (pp : option content) (fs : fsys) (p : path) : list fv :=
-    if accepted pp p then match fs_get fs p with Some c => [(p, c)] | None => [] end else [].
-  Definition pf1 (pp : option content) (fs : fsys) (p : path) : list V := if accepted pp p then perfile p (fs_get fs p) else [].
-  Definition evid (pp : option content) (fs : fsys) (ps : list path) : list fv := flat_map (evid1 pp fs) ps.
-  Definition pfout (pp : option content) (fs : fsys) (ps : list path) : list V := flat_map (pf1 pp fs) ps.
+  (* pp: patterns of the parser; k: configuration the object holds; kf: configuration the file-placement rule uses *)
+  Definition evid1 (pp k : option content) (fs : fsys) (p : path) : list fv :=
+    if accepted pp p then match fs_get fs p with Some c => [(p, enc c k)] | None => [] end else [].
+  Definition pf1 (pp k kf : option content) (fs : fsys) (p : path) : list V :=
+    if accepted pp p
+    then match fs_get fs p with
+         | Some c => perfile p (Some (enc c k)) ++ perfile_fp p (Some (enc c kf))
+         | None => perfile p None ++ perfile_fp p None
+         end
+    else [].
+  Definition evid (pp k : option content) (fs : fsys) (ps : list path) : list fv := flat_map (evid1 pp k fs) ps.
+  Definition pfout (pp k kf : option content) (fs : fsys) (ps : list path) : list V := flat_map (pf1 pp k kf fs) ps.
 
-  Lemma lint_file1_char fs st p : coherent st ->
-    let r := lint_file1 fs st p in let pp := ppats st in
-    dry_rows (fst r) = dry_rows st ++ evid1 pp fs p /\ dry_aux (fst r) = dry_aux st ++ evid1 pp fs p
-    /\ st_ev (fst r) = st_ev st ++ evid1 pp fs p /\ snd r = pf1 pp fs p /\ coherent (fst r) /\ ppats (fst r) = pp.
+  (* what does not change while files are linted *)
+  Definition same_frame (q : oquirks) (a b : ostate) : Prop :=
+    ppats b = ppats a /\ ocfg b = ocfg a /\ fp_view q b = fp_view q a /\ dry_view q b = dry_view q a.
+
+  Lemma same_frame_refl q a : same_frame q a a. Proof. repeat split. Qed.
+  Lemma same_frame_trans q a b c : same_frame q a b -> same_frame q b c -> same_frame q a c.
+  Proof. intros (A1 & A2 & A3 & A4) (B1 & B2 & B3 & B4). repeat split; congruence. Qed.
+
+  Lemma view_first_seen s f cur : view s (first_seen f cur) cur = view s f cur.
+  Proof. unfold view, first_seen. destruct s, f; reflexivity. Qed.
+
+  Lemma checked_frame q st rows aux sev ic : same_frame q st (checked st rows aux sev ic).
+  Proof.
+    unfold same_frame, fp_view, dry_view, checked. cbn [ppats ocfg fp_cfg0 dry_cfg0].
+    rewrite !view_first_seen. repeat split.
+  Qed.
+
+  Lemma lint_file1_char q fs st p : coherent st ->
+    let r := lint_file1 q fs st p in let pp := ppats st in let k := ocfg st in
+    dry_rows (fst r) = dry_rows st ++ evid1 pp k fs p /\ dry_aux (fst r) = dry_aux st ++ evid1 pp k fs p
+    /\ st_ev (fst r) = st_ev st ++ evid1 pp k fs p /\ snd r = pf1 pp k (fp_view q st) fs p /\ coherent (fst r) /\ same_frame q st (fst r).
   Proof.
     intros C. unfold lint_file1, evid1, pf1, accepted. cbn zeta.
     destruct (smem "_is_hardcoded_excluded" lint_file_guards && hard_excl p) eqn:E1; cbn [negb andb fst snd].
@@ -180,78 +205,136 @@ Section Base.
     - pose proof (cached_ignored_ok (ppats st) (icache st) p C) as [Hf Hc].
       destruct (cached_ignored ignored (ppats st) (icache st) p) as [ig ic]. cbn [fst snd] in Hf, Hc. subst ig.
       destruct (ignored (ppats st) p); cbn [negb].
-      + cbn [fst snd set_icache dry_rows dry_aux st_ev icache ppats]. rewrite !app_nil_r. repeat split; try reflexivity. exact Hc.
-      + destruct (fs_get fs p); cbn [fst snd set_icache dry_rows dry_aux st_ev icache ppats]; rewrite ?app_nil_r; repeat split; try reflexivity; exact Hc.
-    - cbn [negb]. destruct (fs_get fs p); cbn [fst snd set_icache dry_rows dry_aux st_ev icache ppats]; rewrite ?app_nil_r; repeat split; try reflexivity; exact C.
+      + cbn [fst snd set_icache dry_rows dry_aux st_ev icache ppats]. rewrite !app_nil_r.
+        split; [reflexivity|]. split; [reflexivity|]. split; [reflexivity|]. split; [reflexivity|]. split; [exact Hc|repeat split].
+      + destruct (fs_get fs p); cbn [fst snd checked dry_rows dry_aux st_ev icache ppats]; rewrite ?app_nil_r;
+          (split; [reflexivity|]); (split; [reflexivity|]); (split; [reflexivity|]); (split; [reflexivity|]); (split; [exact Hc|apply checked_frame]).
+    - cbn [negb]. destruct (fs_get fs p); cbn [fst snd checked dry_rows dry_aux st_ev icache ppats]; rewrite ?app_nil_r;
+        (split; [reflexivity|]); (split; [reflexivity|]); (split; [reflexivity|]); (split; [reflexivity|]); (split; [exact C|apply checked_frame]).
   Qed.
 
-  Lemma lint_each_char fs ps : forall st, coherent st ->
-    let r := lint_each fs st ps in let pp := ppats st in
-    dry_rows (fst r) = dry_rows st ++ evid pp fs ps /\ dry_aux (fst r) = dry_aux st ++ evid pp fs ps
-    /\ st_ev (fst r) = st_ev st ++ evid pp fs ps /\ snd r = pfout pp fs ps /\ coherent (fst r) /\ ppats (fst r) = pp.
+  Lemma lint_each_char q fs ps : forall st, coherent st ->
+    let r := lint_each q fs st ps in let pp := ppats st in let k := ocfg st in
+    dry_rows (fst r) = dry_rows st ++ evid pp k fs ps /\ dry_aux (fst r) = dry_aux st ++ evid pp k fs ps
+    /\ st_ev (fst r) = st_ev st ++ evid pp k fs ps /\ snd r = pfout pp k (fp_view q st) fs ps /\ coherent (fst r) /\ same_frame q st (fst r).
   Proof.
     induction ps as [|p r IH]; intros st C; cbn [OrchHist.lint_each evid pfout flat_map]; cbn zeta.
     - cbn [fst snd]. rewrite !app_nil_r. repeat split; try reflexivity. exact C.
-    - pose proof (lint_file1_char fs st p C) as (H1 & H2 & H3 & H4 & H5 & H6).
-      destruct (lint_file1 fs st p) as [s1 o1]. cbn [fst snd] in H1, H2, H3, H4, H5, H6.
-      pose proof (IH s1 H5) as (K1 & K2 & K3 & K4 & K5 & K6). rewrite H6 in K1, K2, K3, K4, K6.
-      destruct (lint_each fs s1 r) as [s2 o2]. cbn [fst snd] in K1, K2, K3, K4, K5, K6 |- *.
-      rewrite K1, K2, K3, K4, H1, H2, H3, H4, <- !app_assoc. repeat split; try reflexivity; assumption.
+    - pose proof (lint_file1_char q fs st p C) as (H1 & H2 & H3 & H4 & H5 & H6).
+      destruct (lint_file1 q fs st p) as [s1 o1]. cbn [fst snd] in H1, H2, H3, H4, H5, H6.
+      pose proof (IH s1 H5) as (K1 & K2 & K3 & K4 & K5 & K6). cbn zeta in *.
+      destruct H6 as (F1 & F2 & F3 & F4). rewrite F1, F2 in K1, K2, K3. rewrite F1, F2, F3 in K4.
+      destruct (lint_each q fs s1 r) as [s2 o2]. cbn [fst snd] in K1, K2, K3, K4, K5, K6 |- *.
+      rewrite K1, K2, K3, K4, H1, H2, H3, H4, <- !app_assoc.
+      split; [reflexivity|]. split; [reflexivity|]. split; [reflexivity|]. split; [reflexivity|]. split; [exact K5|].
+      apply (same_frame_trans q st s1 s2); [repeat split; assumption|exact K6].
   Qed.
 
-  Lemma evid_app pp fs a b : evid pp fs (a ++ b) = evid pp fs a ++ evid pp fs b.
-  Proof. unfold evid. apply flat_map_app. Qed.
-  Lemma pfout_app pp fs a b : pfout pp fs (a ++ b) = pfout pp fs a ++ pfout pp fs b.
-  Proof. unfold pfout. apply flat_map_app. Qed.
+  (* the first-configuration memories of DRYRule / FilePlacementRule after a per-file loop *)
+  Definition any_checked (pp : option content) (ps : list path) : bool := existsb (accepted pp) ps.
+  Definition cfg0_after (pp : option content) (ps : list path) (f : option (option content)) (cur : option content) :=
+    if any_checked pp ps then first_seen f cur else f.
+
+  Lemma first_seen_idem f cur : first_seen (first_seen f cur) cur = first_seen f cur.
+  Proof. destruct f; reflexivity. Qed.
+
+  Lemma lint_file1_cfg0 q fs st p : coherent st ->
+    let r := lint_file1 q fs st p in
+    dry_cfg0 (fst r) = cfg0_after (ppats st) [p] (dry_cfg0 st) (ocfg st)
+    /\ fp_cfg0 (fst r) = cfg0_after (ppats st) [p] (fp_cfg0 st) (ocfg st).
+  Proof.
+    intros C. unfold lint_file1, cfg0_after, any_checked, accepted. cbn [existsb]. rewrite orb_false_r. cbn zeta.
+    destruct (smem "_is_hardcoded_excluded" lint_file_guards && hard_excl p) eqn:E1; cbn [negb andb fst snd]; [split; reflexivity|].
+    destruct (smem "is_ignored" lint_file_guards) eqn:G2; cbn [andb].
+    - pose proof (cached_ignored_ok (ppats st) (icache st) p C) as [Hf Hc].
+      destruct (cached_ignored ignored (ppats st) (icache st) p) as [ig ic]. cbn [fst snd] in Hf, Hc. subst ig.
+      destruct (ignored (ppats st) p); cbn [negb]; [split; reflexivity|].
+      destruct (fs_get fs p); cbn [fst snd checked dry_cfg0 fp_cfg0]; split; reflexivity.
+    - cbn [negb]. destruct (fs_get fs p); cbn [fst snd checked dry_cfg0 fp_cfg0]; split; reflexivity.
+  Qed.
+
+  Lemma lint_each_cfg0 q fs ps : forall st, coherent st ->
+    let r := lint_each q fs st ps in
+    dry_cfg0 (fst r) = cfg0_after (ppats st) ps (dry_cfg0 st) (ocfg st)
+    /\ fp_cfg0 (fst r) = cfg0_after (ppats st) ps (fp_cfg0 st) (ocfg st).
+  Proof.
+    induction ps as [|p r IH]; intros st C; cbn [OrchHist.lint_each]; cbn zeta; [split; reflexivity|].
+    pose proof (lint_file1_char q fs st p C) as (_ & _ & _ & _ & H5 & (F1 & F2 & _)).
+    pose proof (lint_file1_cfg0 q fs st p C) as (D1 & D2).
+    destruct (lint_file1 q fs st p) as [s1 o1]. cbn [fst snd] in *.
+    pose proof (IH s1 H5) as (K1 & K2). destruct (lint_each q fs s1 r) as [s2 o2]. cbn [fst snd] in *.
+    rewrite K1, K2, D1, D2, F1, F2. unfold cfg0_after, any_checked. cbn [existsb]. rewrite orb_false_r.
+    destruct (accepted (ppats st) p); cbn [orb]; [|split; reflexivity].
+    destruct (existsb (accepted (ppats st)) r); rewrite ?first_seen_idem; split; reflexivity.
+  Qed.
+
+  Lemma run_entry_cfg0 q entry fs st ps : coherent st ->
+    let r := run_entry q entry fs st ps in
+    dry_cfg0 (fst r) = cfg0_after (ppats st) ps (dry_cfg0 st) (ocfg st)
+    /\ fp_cfg0 (fst r) = cfg0_after (ppats st) ps (fp_cfg0 st) (ocfg st).
+  Proof.
+    intros C. unfold OrchHist.run_entry. cbn zeta.
+    pose proof (lint_each_cfg0 q fs ps st C) as (K1 & K2).
+    destruct (lint_each q fs st ps) as [s1 pf]. cbn [fst snd] in *.
+    destruct (finalizes entry); [|split; assumption].
+    unfold OrchHist.finalize. cbn [fst dry_cfg0 fp_cfg0]. split; assumption.
+  Qed.
 
   (* ---------- an entry point, characterised ---------- *)
-  Definition after_finalize (q : oquirks) (rows : list fv) (pp : option content) (ic : list (path * bool)) : ostate :=
-    Build_ostate (if rows_kept q then rows else []) [] [] pp ic.
+  Lemma finalize_frame q st : same_frame q st (fst (finalize q st)) /\ icache (fst (finalize q st)) = icache st.
+  Proof. unfold OrchHist.finalize, same_frame, fp_view, dry_view. cbn [fst ppats ocfg fp_cfg0 dry_cfg0 icache]. repeat split. Qed.
 
   Lemma finalize_char q st :
-    finalize q st = (after_finalize q (dry_rows st) (ppats st) (icache st),
-                     Build_out [] (rep_blocks (dry_rows st) (dry_aux st)) (rep_consts (consts_view q (dry_aux st))) (rep_st (st_ev st))).
+    let r := finalize q st in
+    snd r = Build_out [] (rep_blocks (dry_view q st) (dry_rows st) (dry_aux st)) (rep_consts (dry_view q st) (consts_view q (dry_aux st))) (rep_st (st_ev st))
+    /\ dry_rows (fst r) = (if rows_kept q then dry_rows st else []) /\ dry_aux (fst r) = [] /\ st_ev (fst r) = [].
   Proof.
-    unfold OrchHist.finalize, after_finalize, rows_kept. rewrite gen_dry_aux_reset, gen_st_clears.
-    destruct (smem "_storage" (dry_resets q)); reflexivity.
+    unfold OrchHist.finalize, rows_kept. cbn [fst snd dry_rows dry_aux st_ev]. rewrite gen_dry_aux_reset, gen_st_clears.
+    destruct (smem "_storage" (dry_resets q)); repeat split.
   Qed.
 
   Lemma run_entry_finalizing q entry fs st ps : finalizes entry = true -> coherent st ->
-    let r := run_entry q entry fs st ps in let pp := ppats st in
-    snd r = Build_out (pfout pp fs ps) (rep_blocks (dry_rows st ++ evid pp fs ps) (dry_aux st ++ evid pp fs ps))
-                      (rep_consts (consts_view q (dry_aux st ++ evid pp fs ps))) (rep_st (st_ev st ++ evid pp fs ps))
-    /\ dry_rows (fst r) = (if rows_kept q then dry_rows st ++ evid pp fs ps else [])
-    /\ dry_aux (fst r) = [] /\ st_ev (fst r) = [] /\ coherent (fst r) /\ ppats (fst r) = pp.
+    let r := run_entry q entry fs st ps in let pp := ppats st in let k := ocfg st in
+    snd r = Build_out (pfout pp k (fp_view q st) fs ps)
+                      (rep_blocks (dry_view q st) (dry_rows st ++ evid pp k fs ps) (dry_aux st ++ evid pp k fs ps))
+                      (rep_consts (dry_view q st) (consts_view q (dry_aux st ++ evid pp k fs ps))) (rep_st (st_ev st ++ evid pp k fs ps))
+    /\ dry_rows (fst r) = (if rows_kept q then dry_rows st ++ evid pp k fs ps else [])
+    /\ dry_aux (fst r) = [] /\ st_ev (fst r) = [] /\ coherent (fst r) /\ same_frame q st (fst r).
   Proof.
     intros F C. unfold OrchHist.run_entry. rewrite F. cbn zeta.
-    pose proof (lint_each_char fs ps st C) as (H1 & H2 & H3 & H4 & H5 & H6).
-    destruct (lint_each fs st ps) as [s1 pf]. cbn [fst snd] in H1, H2, H3, H4, H5, H6.
-    rewrite finalize_char. cbn [fst snd with_pf o_pf o_blocks o_consts o_st after_finalize dry_rows dry_aux st_ev icache ppats].
-    rewrite H1, H2, H3, H4. unfold with_pf. cbn [o_pf o_blocks o_consts o_st]. rewrite app_nil_r.
-    repeat split; try reflexivity; try exact H6.
-    intros p b Hp. cbn [icache ppats] in *. apply (H5 p b Hp).
+    pose proof (lint_each_char q fs ps st C) as (H1 & H2 & H3 & H4 & H5 & H6).
+    destruct (lint_each q fs st ps) as [s1 pf]. cbn [fst snd] in H1, H2, H3, H4, H5, H6. cbn zeta in *.
+    pose proof (finalize_char q s1) as (E1 & E2 & E3 & E4). pose proof (finalize_frame q s1) as (G1 & G2).
+    destruct (finalize q s1) as [s2 o]. cbn [fst snd] in *. subst o.
+    destruct H6 as (F1 & F2 & F3 & F4).
+    unfold with_pf. cbn [o_pf o_blocks o_consts o_st]. rewrite app_nil_r, E2, E3, E4, H1, H2, H3, H4, F4.
+    split; [reflexivity|]. split; [reflexivity|]. split; [reflexivity|]. split; [reflexivity|].
+    split.
+    - intros x b Hx. rewrite G2 in Hx. destruct G1 as (G1 & _). rewrite G1. apply (H5 x b Hx).
+    - apply (same_frame_trans q st s1 s2); [repeat split; assumption|exact G1].
   Qed.
 
   Lemma run_entry_plain q entry fs st ps : finalizes entry = false -> coherent st ->
-    let r := run_entry q entry fs st ps in let pp := ppats st in
-    snd r = Build_out (pfout pp fs ps) [] [] []
-    /\ dry_rows (fst r) = dry_rows st ++ evid pp fs ps /\ dry_aux (fst r) = dry_aux st ++ evid pp fs ps
-    /\ st_ev (fst r) = st_ev st ++ evid pp fs ps /\ coherent (fst r) /\ ppats (fst r) = pp.
+    let r := run_entry q entry fs st ps in let pp := ppats st in let k := ocfg st in
+    snd r = Build_out (pfout pp k (fp_view q st) fs ps) [] [] []
+    /\ dry_rows (fst r) = dry_rows st ++ evid pp k fs ps /\ dry_aux (fst r) = dry_aux st ++ evid pp k fs ps
+    /\ st_ev (fst r) = st_ev st ++ evid pp k fs ps /\ coherent (fst r) /\ same_frame q st (fst r).
   Proof.
     intros F C. unfold OrchHist.run_entry. rewrite F. cbn zeta.
-    pose proof (lint_each_char fs ps st C) as (H1 & H2 & H3 & H4 & H5 & H6).
-    destruct (lint_each fs st ps) as [s1 pf]. cbn [fst snd] in *. rewrite H4. repeat split; assumption.
+    pose proof (lint_each_char q fs ps st C) as (H1 & H2 & H3 & H4 & H5 & H6).
+    destruct (lint_each q fs st ps) as [s1 pf]. cbn [fst snd] in *. rewrite H4. repeat split; try assumption; apply H6.
   Qed.
 
   (* ---------- the file system component ---------- *)
   Lemma step_fs q st fs o : snd (fst (step q (st, fs) o)) = fs_step fs o.
   Proof.
-    destruct o as [p|ps|d l|[p|d l]|p c|p|p c|]; cbn [OrchHist.step fs_step].
+    destruct o as [p|ps|d l|[p|d l]|p c|p|p c| |]; cbn [OrchHist.step fs_step].
     - destruct (run_single q "lint_file" fs st p); reflexivity.
     - destruct (run_entry q "lint_files" fs st ps); reflexivity.
     - destruct (run_entry q "lint_directory" fs st _); reflexivity.
     - destruct (fs_get fs p); [|reflexivity]. destruct (run_single q _ fs st p); reflexivity.
     - destruct (run_entry q api_dir_entry fs st _); reflexivity.
+    - reflexivity.
     - reflexivity.
     - reflexivity.
     - reflexivity.
